@@ -627,9 +627,12 @@ Fixpoint renew_after (ppl : list stage) (lji : option nat) (i : nat) : list bool
   | [] => []
   | s :: r => (match r with
                | [] => false
-               | n :: _ => if is_parser s then negb (is_parser n)
-                           else if is_drop s then negb (is_drop n)
-                           else is_relabel n && match lji with Some j => Nat.leb j i | None => false end
+               | n :: _ => match s with
+                           | PLineFormat _ => true        (* the stages behind a line_format read the rewritten line: a select of their own *)
+                           | _ => if is_parser s then negb (is_parser n)
+                                  else if is_drop s then negb (is_drop n)
+                                  else is_relabel n && match lji with Some j => Nat.leb j i | None => false end
+                           end
                end) :: renew_after r lji (S i)
   end.
 
